@@ -2,7 +2,7 @@
 # tools/scratch_setup.sh : (re)create /tmp/scr = {repo: detached worktree of /repo HEAD, verif: copy of /verif whose
 # harness points at /tmp/scr/repo}. Lets seeded changes be tried without touching /repo while other checks run.
 set -eu
-SCR=/tmp/scr
+SCR="${SCR:-/tmp/scr}"
 mkdir -p $SCR
 if [ ! -d $SCR/repo ]; then git -C /repo worktree add --detach $SCR/repo HEAD -q; cp /repo/Cargo.lock $SCR/repo/ 2>/dev/null || true; fi
 git -C $SCR/repo checkout -q -- . ; git -C $SCR/repo checkout -q --detach "$(git -C /repo rev-parse HEAD)"
